@@ -51,8 +51,8 @@ func init() {
 	}
 	info := check.PropInfo{Rule: s1Rule, Assumptions: s1Assumptions}
 	check.RegisterProp("C01", plan([]string{"C01"}, []fam{{"entities", 7, 8}, {"components", 5, 7}, {"modules", 4, 7}}, nil), info)
-	check.RegisterProp("C02", plan([]string{"C02"}, []fam{{"entities", 7, 8}, {"components", 5, 7}, {"modules", 4, 7}}, nil), info)
-	check.RegisterProp("C04", plan([]string{"C04"}, []fam{{"entities", 7, 8}, {"components-ids", 3, 5}, {"modules", 4, 6}, {"lifecycle", 6, 8}, {"groundplane", 4, 6}}, func(tier string) []check.Job {
+	check.RegisterProp("C02", plan([]string{"C02"}, []fam{{"entities", 7, 8}, {"components", 5, 7}, {"modules", 4, 7}, {"pose-churn", 6, 8}}, nil), info)
+	check.RegisterProp("C04", plan([]string{"C04"}, []fam{{"entities", 7, 8}, {"components-ids", 3, 5}, {"modules", 6, 7}, {"lifecycle", 6, 8}, {"groundplane", 4, 6}}, func(tier string) []check.Job {
 		// the remaining request kinds: receipts (incl. the queue-full answer), signed latency starts,
 		// and two concurrent adds of one component (exactly one success)
 		p1, _ := json.Marshal(c19Params{Cap: 1, Mode: "never", Pairs: true, Fill: true})
